@@ -58,3 +58,17 @@ From WF Require Import model.Launch proofs.LaunchProofs.
 Theorem C15_delete_consumer_always_launched : forall c, In UDelete (launch c).
 Proof. intros c. apply launch_units. right. left. reflexivity. Qed.
 Print Assumptions C15_delete_consumer_always_launched.
+
+(* "the run's stored object is replaced by the result of the configured custom delete function applied to the stored object (or by
+   the fixed default marker)": EVERY write that leaves a run DataDeleted, in every history — also the write for a request that is
+   delivered again — holds exactly the scrub of the object that was persisted ([scrub_obj]: the marker without a custom delete
+   function; otherwise what the scripted custom delete makes of the stored object). proofs/Determined.v *)
+From WF Require Import model.Monitors proofs.EffectFacts proofs.Determined.
+Theorem C15_scrub_object : forall c ops, hist_ok ops -> forall p r a, In (TStore (Some p) r a) (trace_of c ops) ->
+  r_state r = RSDataDeleted -> r_obj r = scrub_obj c (r_obj p).
+Proof. exact scrub_object. Qed.
+Print Assumptions C15_scrub_object.
+(* the boolean form the check evaluates (extracted) on the implementation's Store tokens *)
+Theorem C15_scrub_object_monitor : forall c ops, hist_ok ops -> forall t, In t (trace_of c ops) -> mon_C15_obj c t = true.
+Proof. exact mon_C15_obj_holds. Qed.
+Print Assumptions C15_scrub_object_monitor.
